@@ -6,6 +6,7 @@ prefixes) by the engine, and each prefix is replayed from scratch.  So no state 
 copied and aliasing between Python-level containers is preserved for free.
 """
 import ast
+import time
 import z3
 
 from .values import (SDict, V, NONE, Unsupported, Infeasible, PathEnd, PyRaise, ExcVal, Obj, Seq,
@@ -139,6 +140,9 @@ class Interp:
         self.seen_idx = {}
         self.extreme_facts = []
         self.loop_guards = []
+        self.decide_timeout_ms = min(1500, solver_timeout_ms)
+        self.unknown_feasibility = 0
+        self.deadline = None
 
     # ------------------------------------------------------------------ decisions
     def add_pc(self, c, tag=None):
@@ -155,7 +159,14 @@ class Interp:
         self.add_pc(c, tag)
 
     def feasible(self, c=None):
+        # path feasibility is an optimisation (pruning): a short budget is enough, `unknown`
+        # counts as feasible (sound: at worst an infeasible path is explored as well)
+        self.solver.set('timeout', self.decide_timeout_ms)
         r = self.solver.check() if c is None else self.solver.check(c)
+        if r == z3.unknown:
+            self.unknown_feasibility += 1
+        if self.deadline is not None and time.time() > self.deadline:
+            raise Unsupported('time budget of the target exceeded (%d solver feasibility checks were inconclusive)' % self.unknown_feasibility)
         return r != z3.unsat
 
     def decide(self, cond, label=''):
